@@ -71,7 +71,8 @@ fn sc_loop_r(shape_ix: u32, nt: u32, kext: u32, light: bool, root_internal: bool
     let m = Model { sh, ts, late: false };
     let confs = m.sh.configs_of(1);
     let ci = vnd_range(0, confs.len() as u32 - 1, 50) as usize;
-    let conf = m.sh.ordered(confs[ci]);
+    let mut conf = m.sh.ordered(confs[ci]);
+    if root_internal { conf.reverse(); }      // the h_loopi_* family also starts from a configuration list in reverse document order
     let hv = HV::new();
     let mut externals = Vec::new();
     let mut i = 0;
@@ -139,7 +140,9 @@ fn exit_interpreter() {
     let m = Model { sh, ts: Vec::new(), late: false };
     let confs = m.sh.configs_of(1);
     let ci = vnd_range(0, confs.len() as u32 - 1, 2) as usize;
-    let conf = m.sh.ordered(confs[ci]);
+    // the configuration is kept in entry order, which need not be document order: both extremes are explored
+    let mut conf = m.sh.ordered(confs[ci]);
+    if vnd_bool(6) { conf.reverse(); }
     let has_parent = vnd_bool(3);
     let report = vnd_bool(4);
     let mut fsm = build_fsm(&m);
